@@ -115,5 +115,10 @@ def norm(s):
     return re.sub(r"\s+", " ", s).strip()
 
 
+def norm_code(s):
+    """Token text joined by single spaces, comments and whitespace dropped."""
+    return " ".join(s[a:b] for _, a, b in code_tokens(s))
+
+
 def line_of(src, off):
     return src.count("\n", 0, off) + 1
